@@ -158,6 +158,17 @@ def _cases0(tier, rng):
             L.append("azhl " + hx(pre + d + pre))
             if n < 100:
                 L.append("az 33 0 " + hx(pre + d + pre))
+    # the special two-byte pairs inside / at the end of binary runs whose length is at a field-width boundary
+    # (5-bit count up to 31, 11-bit count up to 2047+31): the pair path and the single-character path must agree
+    for pair in (b". ", b", ", b": ", b"\r\n"):
+        for n in ([29, 30, 31, 61, 62] + list(range(2074, 2080)) if quick else list(range(27, 34)) + list(range(59, 66)) + list(range(2040, 2050)) + list(range(2070, 2084))):
+            d = bytes(rng.choice([0x80, 0xff, 0xa5, 0xe9]) for _ in range(n))
+            tail = bytes(rng.choice([0x80, 0xff, 0xa5]) for _ in range(rng.choice([0, 1, 5])))
+            L.append("azhl " + hx(d + pair + tail))
+            if n > 2000 and (not quick or n % 2 == 0):
+                L.append("az 5 0 " + hx(d + pair + tail))
+            elif n < 100:
+                L.append("az 23 0 " + hx(d + pair + tail + b"(+)-[*]"))
     # every layer request at its boundary payload length
     pcts = [33] if quick else PCTS
     reqs = list(range(-4, 0)) + list(range(1, 33))
